@@ -211,6 +211,12 @@ def render(ir):
     for k, m in enumerate(ir["mods"]):
         e('fn imp%d() { var r = nil; try { import "%s"; print(("ev", "drv-imp", %d, "ok", %s.getg())); r = %s; } catch e { print(("ev", "drv-imp", %d, type(e))); } return r; }' % (
             k, m["path"], k, m["bind"], m["bind"], k))
+    # an import error that is propagating through a finally block which (through a function) loads another module for the
+    # first time must still reach the handler
+    for i in range(2):
+        e('fn finload%d() { import "pl%d"; print(("ev", "fin-imp", %d, pl%d.getg())); }' % (i, i, i, i))
+        e('fn finimp%d() { try { import "nope/missing%d"; } finally { finload%d(); } return "fell-through"; }' % (i, i, i))
+    e("var finimps = [finimp0, finimp1];")
     e("var imps = [%s];" % ", ".join("imp%d" % k for k in range(n)))
     e("var mods = [%s];" % ", ".join("nil" for _ in range(n)))
     e("var fibs = [%s];" % ", ".join("nil" for _ in range(n)))
@@ -220,7 +226,7 @@ def render(ir):
     e("  mods[k] = r;")
     e("}")
     e("for step in 0..%d {" % ir["steps"])
-    e('  var a = print(("pick", 10)); var k = print(("pick", %d)); var v = print(("pick", 50));' % n)
+    e('  var a = print(("pick", 11)); var k = print(("pick", %d)); var v = print(("pick", 50));' % n)
     e("  if a < 3 {")
     e("    record(k, imps[k]());")
     e("  } else if a == 3 {")
@@ -240,6 +246,8 @@ def render(ir):
     e('      try { mods[k].no_such_attribute; } catch e { print(("ev", "attr", k, type(e))); }')
     e('      try { print(("ev", "leak", own)); } catch e { print(("ev", "noleak", type(e))); }')
     e('    } else { print(("ev", "skip")); }')
+    e("  } else if a == 10 {")
+    e('    var r = "none"; try { r = finimps[v % 2](); } catch e { r = type(e); } print(("ev", "finimp", v % 2, r));')
     e("  } else {")
     e('    gv = gv + 1; print(("ev", "maingv", gv, main_only));')
     e("  }")
@@ -264,6 +272,8 @@ def fs_of(ir):
             else:
                 reads.append("ok")
         fs[m["path"]] = {"source": module_text(ir, k), "reads": reads}
+    for i in range(2):
+        fs["pl%d" % i] = {"source": 'var gv = %d; fn getg() { return gv; } print(("ev", "load-pl", %d));\n' % (77 + i, i), "reads": []}
     return fs
 
 
@@ -300,6 +310,7 @@ def model(ir, tape, faults, chooser=None):
     isos = [0] * n
     mods = [None] * n             # driver's record
     fibs = [None] * n             # None | generator (suspended) | "done"
+    pl_loaded = [False, False]
 
     def pick(m, purpose=None):
         if chooser is not None:
@@ -421,7 +432,7 @@ def model(ir, tape, faults, chooser=None):
     outcome = {"ok": True}
     try:
         for _step in range(ir["steps"]):
-            a = pick(10, "action")
+            a = pick(11, "action")
             k = pick(n, "module")
             v = pick(50, "value")
             if a < 3:
@@ -476,6 +487,14 @@ def model(ir, tape, faults, chooser=None):
                     ev.append([s("noleak"), cls("NameError")])
                 else:
                     ev.append([s("skip")])
+            elif a == 10:
+                i = v % 2
+                if not pl_loaded[i]:
+                    pl_loaded[i] = True
+                    probes.inc("module_first_loaded_inside_finally_with_import_error_in_flight")
+                    ev.append([s("load-pl"), num(i)])
+                ev.append([s("fin-imp"), num(i), num(77 + i)])
+                ev.append([s("finimp"), num(i), cls("ImportError")])
             else:
                 maingv[0] += 1
                 ev.append([s("maingv"), num(maingv[0]), num(1)])
@@ -497,7 +516,7 @@ def make_tape(rng, ir, faults):
                 return rng.below(3)
             if x < (p_import + p_fiber) * 1000:
                 return 6 + rng.below(2)
-            return rng.choice([3, 4, 5, 5, 8, 9])
+            return rng.choice([3, 4, 5, 5, 8, 9, 10])
         if purpose == "module":
             # resume suspended loaders and use loaded modules more often than chance would
             susp = [i for i in range(m) if fibs[i] not in (None, "done")]
